@@ -70,6 +70,11 @@ def run_reader(data, chunk_size, use_seek, seek_offset, whence2, buffer_now):
     joined = b"".join(chunks)
     if joined != data[start:]:
         problems.append("bytes differ from data[start:]")
+    if buffer_now:
+        # a buffered content is a snapshot: iterating again yields the same chunks without touching the stream
+        again = list(cont.iter_bytes())
+        if again != chunks or st.reads != reads_after:
+            problems.append("second iteration of a buffered content differs / reads the stream again")
     for c in chunks:
         if len(c) == 0 or len(c) > chunk_size:
             problems.append("chunk of size %d with chunk_size %d" % (len(c), chunk_size))
@@ -119,6 +124,7 @@ def run_file(length, chunk_size, use_seek, seek_offset, whence2, buffer_now):
         if buffer_now:
             os.unlink(path)      # must not be needed any more
         chunks = list(cont.iter_bytes())
+        again = list(cont.iter_bytes())      # the file is re-opened (or the buffer re-used): same bytes again
     finally:
         if os.path.exists(path):
             os.unlink(path)
@@ -127,6 +133,8 @@ def run_file(length, chunk_size, use_seek, seek_offset, whence2, buffer_now):
         problems.append("bytes differ from file[start:]")
     if any(len(c) == 0 or len(c) > chunk_size for c in chunks):
         problems.append("bad chunk size")
+    if again != chunks:
+        problems.append("second iteration yields %r, first %r" % (again, chunks))
     return {"chunks": chunks, "problems": problems}
 
 
